@@ -31,6 +31,10 @@ type EngineRequest struct {
 	UseRunWorkflow  bool         `json:"use_run_workflow,omitempty"`
 	RelativeContext bool         `json:"relative_context,omitempty"`
 	Chdir           string       `json:"chdir,omitempty"` // "" | "scratch" | "elsewhere"
+	// PriorFiles: a different file tree (same names, other contents) that the same engine object
+	// parses and runs first, from another directory; its result is discarded.
+	PriorFiles    map[string]string `json:"prior_files,omitempty"`
+	PriorInputB64 string            `json:"prior_input_b64,omitempty"`
 	// ChdirAfterLoad changes the working directory after the file context was created and loaded
 	// (before Parse): "" | "elsewhere"
 	ChdirAfterLoad string   `json:"chdir_after_load,omitempty"`
@@ -206,6 +210,9 @@ func RunEngine(req *EngineRequest) *EngineAnswer {
 				r.err = fmt.Errorf("engine.New: %w", err)
 				return
 			}
+			if len(req.PriorFiles) > 0 {
+				runPrior(flow, req)
+			}
 			if req.UseRunWorkflow {
 				phase = "run"
 				w.SetPhase("prepare")
@@ -274,3 +281,38 @@ func RunEngine(req *EngineRequest) *EngineAnswer {
 type discard struct{}
 
 func (discard) Write(p []byte) (int, error) { return len(p), nil }
+
+// runPrior lets the engine object parse and run another tree first (discarding the result).
+func runPrior(flow engine.WorkflowEngine, req *EngineRequest) {
+	defer func() { _ = recover() }()
+	base := os.Getenv("VERIF_SCRATCH")
+	if base == "" {
+		base = os.TempDir()
+	}
+	scratchCounter++
+	dir := filepath.Join(base, fmt.Sprintf("verif-eng-%d-%d-prior", os.Getpid(), scratchCounter))
+	defer os.RemoveAll(dir)
+	for name, b64 := range req.PriorFiles {
+		data, err := base64.StdEncoding.DecodeString(b64)
+		if err != nil {
+			return
+		}
+		p := filepath.Join(dir, name)
+		_ = os.MkdirAll(filepath.Dir(p), 0o755)
+		if os.WriteFile(p, data, 0o644) != nil {
+			return
+		}
+	}
+	name := req.WorkflowFile
+	if name == "" {
+		name = "workflow.yaml"
+	}
+	fc, err := loadfile.NewFileCacheUsingContext(dir, map[string]string{"workflow": name})
+	if err != nil || fc.LoadContext() != nil {
+		return
+	}
+	input, _ := base64.StdEncoding.DecodeString(req.PriorInputB64)
+	ctx, cancel := context.WithTimeout(context.Background(), 10*time.Second)
+	defer cancel()
+	_, _, _, _ = flow.RunWorkflow(ctx, input, fc, "workflow")
+}
